@@ -703,10 +703,10 @@ class C10World(World):
         elif kind == "restart":
             flags = self._cache_flags()[0]
             self.save_bytes("ckpt", self.M.state_dict())
-            fresh, fleaf = build(self.cfg, int(op["seed"]), True)
-            if self.dtype() == torch.float64:
-                fresh.double()
             try:
+                fresh, fleaf = build(self.cfg, int(op["seed"]), True)
+                if self.dtype() == torch.float64:
+                    fresh.double()
                 fresh.load_state_dict(self.load_bytes("ckpt"), strict=True)
             except Exception as e:   # noqa: BLE001 - whether a checkpoint reloads is C15's business
                 self.probes["restart_skipped_checkpoint_does_not_reload"] += 1
